@@ -24,6 +24,7 @@ def run(ctx):
     wrappers.r_lmienc(ctx)
     wrappers.r_mainvars(ctx)
     wrappers.r_trilorder(ctx)
+    wrappers.r_mosekrow(ctx)
     translate.r_transl(ctx)
     pepsolve.r_objsense(ctx)
     ctx.floor("bar-variable index sites", nb, 6)
